@@ -18,6 +18,8 @@ PROP = {'drive': ['T2'], 'modules': ['SfntV.Props.C05'],
                        'C05_flex1_axis',
                        'C05_hflex_returns',
                        'C05_progress_pathop_partial',
+                       'C05_progress',
+                       'C05_quirks_irrelevant',
                        'C05_loop_fuel',
                        'C05_step_consumes',
                        'C05_mul_deviates',
@@ -26,23 +28,30 @@ PROP = {'drive': ['T2'], 'modules': ['SfntV.Props.C05'],
  'areas': [('t2', 4000, 120000)],
  'rule': 'distinct case lines (charstring bytes, local/global subroutine tables, default/nominal width); '
          'non-trivial = more than 8 code bytes or a designed boundary/fault program',
- 'partial': ['Fuel: C05_loop_fuel / C05_step_consumes are proved for every quirk setting (the loop result is independent '
-             'of the fuel above code.length; every step consumes code). '
-             'C05_progress_full and C05_quirks_irrelevant_full (whole well-formed programs, WF grammar of '
-             'Spec/T2.lean) are stated as definitions and NOT proved; proved is the operator-level part '
-             'C05_progress_pathop_partial (every path operator with a TN5177-legal operand count after the first '
-             'moveto). Agreement of the Go decoder with the specification interpreter on whole well-formed programs '
-             '(incl. arithmetic, storage, conditionals, subroutines, hints, masks, width) is established by the D '
-             'stream t2.spec only (sampled).',
+ 'partial': ['C05_progress (WF p -> the specification interpreter returns a glyph) and C05_quirks_irrelevant (WF p -> '
+             'Agrees p -> interp goQuirks = interp strict) are proved for whole programs of the static grammar WF '
+             '(Spec/T2.lean wfCheck): literal operands in all encodings (|v| <= 32000), optional leading width on the '
+             'first stack-clearing operator, hstem/vstem/hstemhm/vstemhm, hintmask/cntrmask with implicit vstem '
+             'operands and ceil(nStems/8) mask bytes, rmoveto/hmoveto/vmoveto, all ten path operators and the four '
+             'flex forms, abs add sub neg mul eq and or not drop dup exch ifelse random, endchar. '
+             'NOT in the grammar / NOT proved: subroutine calls (callsubr, callgsubr, return: WF subroutine tables, '
+             'depth <= 10) and the value-dependent operators div, sqrt, put, get, index, roll (their legality depends '
+             'on operand values, which a stack-effect grammar does not track); for those the agreement of the Go '
+             'decoder with the specification rests on the D stream t2.spec.',
+             'Agrees (decidable, Spec.T2.agreesCheck) excludes exactly: mul (finding C05-mul); add and sub (their '
+             'results are not statically within +-32000, outside of which the Go decoder clamps: finding C05-clamp); '
+             'flex1 and hflex1 (they derive one delta as a sum of up to five operands, which can leave +-32000: '
+             'C05-clamp). Literal operands beyond +-32000 are excluded by WF itself (C05-clamp).',
+             'Fuel: C05_loop_fuel / C05_step_consumes are proved for every quirk setting.',
+             'The V stream t2.wf compares the generator\'s own claim "this program is in WF / in Agrees" with the '
+             'Lean checkers evaluated by the driver on the bytes (tokenizer + wfCheck + agreesCheck + canonical '
+             're-encoding); the distribution t2.theorem-domain shows how many sampled programs lie in the domain of '
+             'the two theorems.',
              'C05_rejects_missing_endchar covers the empty program; "no endchar anywhere => error" for arbitrary '
              'programs is checked by correspondence (fault class missing-endchar), not proved.',
-             'The Go decoder differs from the specification on two classes of well-formed programs (open findings '
-             'C05-mul (#18), C05-clamp; a third, C05-flex1, is repaired in the working tree); the generator draws the D stream from outside these classes and '
-             'the V stream from everywhere; each class has a witness theorem (C05_*_deviates).',
              'Operand-count leniency of the Go decoder (moveto/path operators with too few or stray operands are '
              'silently ignored instead of rejected) is modelled by three Quirks flags; it is not among the fault '
-             'classes C05_rejects quantifies over (arithmetic/storage/call underflow, overflow, depth, subr index, '
-             'missing endchar, draw before move).'],
+             'classes C05_rejects quantifies over.'],
  'modelled_not_verified': ['float64 evaluation in decodeCharString: the model is exact 16.16 fixed point; it equals '
                            'the float computation as long as values stay multiples of 2^-16 below 2^37. div with an '
                            'inexact quotient and sqrt of a non-square leave that domain (model flag St.inexact): '
@@ -62,7 +71,7 @@ LEVEL = {'text': 'Proof + correspondence: ONE Lean Type 2 interpreter parameteri
          'Proved for all inputs: opcode numbers/limits/bias rule as regenerated from the source equal TN5177; operand '
          'decoding of all five encodings; rejection of each single-fault class; operator lemmas (rlineto, hvcurveto '
          'trailing operand, flex1 axis rule, hflex); progress of every path operator with a legal operand count. '
-         'Whole-program progress / quirk-irrelevance are stated, not proved.',
+         'Whole-program progress and quirk-irrelevance are proved for the static grammar without subroutine calls and value-dependent operators.',
  'note': 'Trusted: Lean kernel + 3 standard axioms; hand-written model tied by sampled correspondence; float64 vs '
          'exact fixed point outside div/sqrt; TN5177 as remembered.',
  'technique': 'Lean 4 executable interpreter (model = spec + quirks), theorems by case analysis/omega/decide, '
